@@ -1,16 +1,114 @@
 package props
 
-import "voicheck/econst"
+// C20 — precomputed constants and tables equal their definitions in every
+// back end.  All work is done by the E-CONST engine (voicheck/econst).
+
+import (
+	"fmt"
+
+	"voicheck/econst"
+	"voicheck/load"
+)
 
 func init() {
 	Registry["C20"] = func(c *Ctx) {
-		c.Preload(c.Configs()...)
-		for _, id := range c.Configs() {
-			p := c.Prog(id)
+		run := c.Run
+		run.Exhaustive = true
+		run.Explanation = "E-CONST: every literal arithmetic constant of curve, curve/scalar, internal/field, internal/elligator, " +
+			"internal/lattice, internal/strobe and primitives/x25519 (package-level composite literals and constructor calls, literals " +
+			"inside function bodies such as (*Element).One/MinusOne, ellSquared, the Sub/Neg bias vectors, the (A+2)/4 multiplier, the " +
+			"DATA/GLOBL blocks and Keccak immediates of the assembly files) is read from the typed syntax tree of each build " +
+			"configuration (integers only through go/types constant folding), converted with the radix its Go type implies " +
+			"(5x51, 10x25.5, 5x52, 9x29 bits) and compared with its definition evaluated by an independent math/big oracle " +
+			"(GF(2^255-19), the Edwards group law, RFC 8032 compression, the Montgomery map, RFC 9496 encoding, Montgomery constants " +
+			"mod L, the Keccak LFSR).  The oracle is itself checked at start-up against every value RFC 8032 / 7748 / 9496 / the Keccak " +
+			"reference print.  The 256+64+64 packed table entries are compared entry by entry with (y+x, y-x, 2dxy) of [(j+1)256^i]B, " +
+			"[2j+1]B and [2j+1][2^128]B; EIGHT_TORSION entry i with [i]T8.  The table of definitions is complete by construction: every " +
+			"package-level variable or large integer constant of arithmetic type, every arithmetic literal inside a function body and " +
+			"every assembly data symbol without a definition fails the run.  For variables filled at start-up by library code only the " +
+			"provenance is decided (which routine builds them from which literal source, with which indexing)."
+		run.Assumptions = []string{
+			"go/types constant folding and go/packages build-constraint evaluation are correct (the literal a configuration compiles is the literal that is read)",
+			"math/big is correct; the oracle's formulas are the definitions (they are cross-checked against the values printed in RFC 8032 §5.1, RFC 7748 §4.1, RFC 9496 §4.1/A.1 and the Keccak round-constant table on every run)",
+			"field.(*Element).SetBytes, scalar.NewFromBits/ToBytes and the table constructors compute what their names say (start-up code is not executed; see not_decided)",
+			"the Go assembler places DATA/GLOBL bytes little-endian as written (assembly data is scanned as text, the only source form it has)",
+		}
+		run.NotDecided = []string{
+			"the VALUES of tables computed at start-up by library code (the unpacked fixed-base and NAF tables, the AVX2 vector tables built in init, field.One/MinusOne/Two, scalar.order, x25519.Basepoint): only their provenance is decided — the routine, the literal source constant and the indexing (8*i+j; [0:32],[32:64],[64:96] -> y_plus_x,y_minus_x,xy2d)",
+			"immediates inside assembly instruction streams other than the Keccak round constants (e.g. $19 and shift counts in field_u64_amd64.s) and function-local mask/shift constants of reduce/SetBytes/ToBytes: these are range facts (E-RANGE / C04), not definitional constants",
+			"whether the sign of V_FACTOR matters: the Elligator map normalises the sign of v, the rule nevertheless requires the documented (non-negative) root",
+		}
+
+		cfgs := c.Configs()
+		if !c.Preload(cfgs...) {
+			return
+		}
+		// expected_min: ~90% of the instance counts measured on the unchanged tree
+		// (quick = amd64, purego, f32; thorough = all six).
+		type mins struct{ value, rng, prov, table, complete, bias, asm, control, xradix int }
+		m := mins{value: 165, rng: 170, prov: 40, table: 1152, complete: 175, bias: 6, asm: 65, control: 110, xradix: 27}
+		if c.Tier == "thorough" {
+			m = mins{value: 365, rng: 340, prov: 80, table: 2304, complete: 330, bias: 12, asm: 65, control: 220, xradix: 27}
+		}
+		const id = "CONST"
+		run.Rule(id+"-value", "a literal constant equals its definition evaluated by the big-integer oracle", m.value)
+		run.Rule(id+"-range", "every limb of a literal limb vector is in reduced range for its radix", m.rng)
+		run.Rule(id+"-prov", "a variable computed at start-up is built from the named source constant by the named routine", m.prov)
+		run.Rule(id+"-table", "a packed table entry is the canonical (y+x, y-x, 2dxy) of its defining multiple of B", m.table)
+		run.Rule(id+"-complete", "every literal arithmetic constant in scope has an entry in the definition table", m.complete)
+		run.Rule(id+"-bias", "the bias limb vector of field Sub/Neg is a positive multiple of p", m.bias)
+		run.Rule(id+"-asm", "arithmetic data embedded in the assembly text equals its definition", m.asm)
+		run.Rule(id+"-control", "positive control: the literal with one integer perturbed in memory is rejected by its own check", m.control)
+		run.Rule(id+"-xradix", "the 64-bit and the 32-bit encodings of the same constant denote the same value", m.xradix)
+
+		for _, cfg := range cfgs {
+			p := c.Prog(cfg)
 			if p == nil {
 				continue
 			}
-			econst.CheckAll(c.Run, p, "CONST")
+			econst.CheckAll(run, p, id)
+		}
+
+		// samples: a few actual obligations, written out
+		sample := func(cfg, name string) {
+			p := c.Prog(cfg)
+			if p == nil {
+				return
+			}
+			v, err := econst.Value(p, name)
+			if err != nil {
+				return
+			}
+			doc, _ := econst.Definition(name)
+			s := map[string]any{"config": cfg, "constant": name, "pos": v.Pos, "definition": doc}
+			if v.Radix != "" {
+				s["radix"] = v.Radix
+				s["limbs"] = fmt.Sprint(v.Limbs)
+			}
+			if v.Int != nil {
+				s["denotes"] = v.Int.String()
+			}
+			if v.Bytes != nil {
+				s["bytes"] = fmt.Sprintf("%x", v.Bytes)
+			}
+			run.Sample(s)
+		}
+		for _, cfg := range []string{"amd64", "f32"} {
+			sample(cfg, "curve.constEDWARDS_D2")
+			sample(cfg, "curve/scalar.constRR")
+			sample(cfg, "internal/elligator.constMONTGOMERY_SQRT_NEG_A_PLUS_TWO")
+			sample(cfg, "curve/scalar.constLFACTOR")
+		}
+		sample("amd64", "curve.RISTRETTO_BASEPOINT_COMPRESSED")
+		sample("amd64", "internal/lattice.constELL_LOWER_HALF")
+		b := econst.Basepoint()
+		run.Sample(map[string]any{"oracle": "B = (x even, y = 4/5)", "x": b.X.String(), "y": b.Y.String(),
+			"table": "packedEdwardsBasepointTable[8*i+j] == niels([(j+1)*256^i]B) for all 256 (i,j); packedAffineOddMultiplesOfB*[j] == niels([2j+1]P) for all 64 j, P in {B, [2^128]B}"})
+		run.Sample(map[string]any{"oracle_self_check": "p, L, d, B, SQRT_M1, SQRT_AD_MINUS_ONE, INVSQRT_A_MINUS_D, ONE_MINUS_D_SQ, D_MINUS_ONE_SQ, Ristretto(B), Ristretto(2B), u(B) = 9, v^2 = u^3+Au^2+u, sqrt(-486664)u/v = ±B.x, (A+2)/4, LFACTOR, 24 Keccak RC from the LFSR: all equal to the printed specification values"})
+
+		if c.Tier == "thorough" {
+			run.Rule(id+"-mutants", "seeded source edit (in-memory overlay): a value-changing edit is reported naming the constant, a behaviour-preserving edit stays silent", 14)
+			econst.RunMutants(run, id, func(cfg string) *load.Program { return c.Prog(cfg) })
 		}
 	}
 }
